@@ -197,11 +197,17 @@ func (p *Prog) instrWrites(in ssa.Instruction) (locs []Loc, root ssa.Value) {
 					}
 				}
 			}
-			// a store through a pointer to T may hit any field of type T
-			if _, isAlloc := root.(*ssa.Alloc); !isAlloc {
+			// a store through a pointer to T may hit any field of type T whose
+			// address is taken somewhere (captured variables are their own cells)
+			_, isAlloc := root.(*ssa.Alloc)
+			_, isFree := root.(*ssa.FreeVar)
+			if !isAlloc && !(isFree && s.Addr == root) {
 				if _, isFA := s.Addr.(*ssa.FieldAddr); !isFA {
 					locs = append(locs, derefClass(pt.Elem()))
 				}
+			}
+			if isFree && s.Addr == root {
+				locs = append(locs, root)
 			}
 		}
 		return locs, root
@@ -721,4 +727,41 @@ func isFreshValue(v ssa.Value, depth int) bool {
 		return true
 	}
 	return false
+}
+
+
+// addrTaken: fields whose address escapes (is used other than as the direct
+// operand of a load, store or further field/index selection).
+func (p *Prog) addrTaken() map[*types.Var]bool {
+	if p.addrTakenFields != nil {
+		return p.addrTakenFields
+	}
+	m := map[*types.Var]bool{}
+	for _, fn := range p.Funcs {
+		for _, b := range fn.Blocks {
+			for _, in := range b.Instrs {
+				fa, ok := in.(*ssa.FieldAddr)
+				if !ok {
+					continue
+				}
+				st := derefStruct(fa.X.Type())
+				if st == nil {
+					continue
+				}
+				for _, ref := range *fa.Referrers() {
+					switch r := ref.(type) {
+					case *ssa.UnOp, *ssa.FieldAddr, *ssa.IndexAddr, *ssa.DebugRef:
+					case *ssa.Store:
+						if r.Val == fa {
+							m[st.Field(fa.Field)] = true
+						}
+					default:
+						m[st.Field(fa.Field)] = true
+					}
+				}
+			}
+		}
+	}
+	p.addrTakenFields = m
+	return m
 }
